@@ -9,11 +9,12 @@
    Consequently every future reachable from the awaited task through the dependency lists of uncompleted
    tasks is computed, an uncomputed batch item, or a started task that is blocked: none is unstarted or
    runnable.
-   NOT proved (correspondence + monitors in harness/props/c04.py): that the items in S belong to a batch
-   that is scheduled and not yet flushed (model-side this is the invariant checked by the C04 monitor
-   "flush-with-runnable-task"/"item-not-scheduled"); programs with shared futures (DAGs), synchronous
-   re-entry (.value() inside a task) and the MAX_TASK_STACK_SIZE reset. *)
-From Asynq Require Import Machine Seq proofs.MachineC08 proofs.MachineC01 proofs.MachineC04.
+   Second theorem (proofs/MachineC04B.v): moreover every batch item in S belongs to a batch that is in the
+   scheduler's set (TaskScheduler._batches), is not flushed yet and contains the item - the stuck tasks are
+   blocked on batch items whose batch is still pending and known to the scheduler.
+   NOT proved (correspondence + monitors in harness/props/c04.py): programs with shared futures (DAGs),
+   synchronous re-entry (.value() inside a task) and the MAX_TASK_STACK_SIZE reset. *)
+From Asynq Require Import Machine Seq proofs.MachineC08 proofs.MachineC01 proofs.MachineC04 proofs.MachineC04B.
 
 Theorem C04_flush_only_when_stuck_tree : forall P, pointwise P -> forall p, tree p -> forall n,
   let h := fst (create [] (FTask p) (st0 P)) in
@@ -28,6 +29,19 @@ Theorem C04_flush_only_when_stuck_tree : forall P, pointwise P -> forall p, tree
     (exists kind idx key a, get d s = Some (mkFut None (KItem kind idx key a))).
 Proof. exact flush_only_when_stuck_tree. Qed.
 Print Assumptions C04_flush_only_when_stuck_tree.
+
+Theorem C04_stuck_items_are_in_pending_scheduled_batches_tree : forall P, pointwise P -> forall p, tree p -> forall n,
+  let h := fst (create [] (FTask p) (st0 P)) in
+  let s1 := snd (create [] (FTask p) (st0 P)) in
+  no_unwind P n (start h s1) -> c_mode (run P n (start h s1)) = MAfterExec ->
+  computed h (c_st (run P n (start h s1))) = false ->
+  exists S : fid -> Prop, S h /\ (forall d, S d -> S_ok S (c_st (run P n (start h s1))) d) /\
+    forall d kind idx key a, S d -> get d (c_st (run P n (start h s1))) = Some (mkFut None (KItem kind idx key a)) ->
+      In (kind, idx) (sb (c_st (run P n (start h s1)))) /\
+      In d (b_items (get_batch (kind, idx) (c_st (run P n (start h s1))))) /\
+      b_done (get_batch (kind, idx) (c_st (run P n (start h s1)))) = false.
+Proof. exact flush_only_when_stuck_pending_tree. Qed.
+Print Assumptions C04_stuck_items_are_in_pending_scheduled_batches_tree.
 
 Theorem C04_reachable_is_computed_or_stuck_tree : forall P, pointwise P -> forall p, tree p -> forall n,
   let h := fst (create [] (FTask p) (st0 P)) in
